@@ -7,6 +7,13 @@ junk2 = [bytearray(64 + (i % 7)) for i in range(int(os.environ.get("VERIF_JUNK",
 
 def main():
     spec = json.load(open(sys.argv[1]))
+    if os.environ.get("VERIF_COVERAGE"):        # reach monitor (tools/reach.sh), off in the checks
+        import coverage, atexit
+        root = os.path.realpath(os.environ.get("SYNAPGRAD_ROOT", "/repo"))
+        cov = coverage.Coverage(data_file=os.path.join(os.environ["VERIF_COVERAGE"], f"C19.cov.{os.getpid()}"), branch=True,
+                                include=[os.path.join(root, "synapgrad", "*")], config_file=False)
+        cov.start()
+        atexit.register(lambda: (cov.stop(), cov.save()))
     from harness import env, gen, programs
     ns = env.load(with_utils=spec["kind"] in ("split", "split-arrays", "onehot-strings"))
     import numpy as np, random
